@@ -159,6 +159,7 @@ var runeGen = rapid.OneOf(
 	rapid.Int32Range('a', 'z'),
 	rapid.Int32Range(0x20, 0x7e),
 	rapid.SampledFrom([]rune{' ', '%', '+', '&', '=', '/', '?', '#', ';', ':', '@', '"', '\'', '<', '>', '\\', ',', '\n', '\r', '\t', '-', '_', '.', '~', '!', '*', '(', ')', '$', '[', ']', '{', '}', '|', '^', '`'}),
+	rapid.Int32Range(0, 0x1f),
 	rapid.Int32Range(0x80, 0xff),
 	rapid.Int32Range(0x100, 0x7ff),
 	rapid.Int32Range(0x800, 0xd7ff),
